@@ -49,6 +49,9 @@ func c10Item(e c10Entry, variant int) ap.Item {
 	case "collection":
 		// the addressee given as an embedded collection object with the addressee's id (a followers collection that was dereferenced)
 		return &ap.OrderedCollection{ID: ap.IRI(id), Type: ap.OrderedCollectionType, TotalItems: 2, OrderedItems: ap.ItemCollection{ap.IRI("https://example.com/members/1")}}
+	case "idless":
+		// an embedded actor that has no id: nobody that can be addressed, and nothing it could be a repeated mention of
+		return &ap.Actor{Type: ap.PersonType, PreferredUsername: ap.DefaultNaturalLanguageValue(fmt.Sprintf("anonymous-%d", e.Who))}
 	case "opaque":
 		// an addressee named by a URI without an authority (acct:, urn:): a different string is a different addressee
 		return ap.IRI(fmt.Sprintf("acct:user%d@example.com", e.Who))
@@ -172,6 +175,13 @@ func c10Run(c c10Case) (ds []keyed, dupPattern string) {
 				continue
 			}
 			k := c10Key(it)
+			if len(it.GetLink()) == 0 {
+				// no id: not an addressee; the entry stays where it is
+				if keep {
+					wantLists[name] = append(wantLists[name], k)
+				}
+				continue
+			}
 			if blockedKey != "" && k == blockedKey {
 				continue // a Block never addresses the blocked object
 			}
@@ -261,7 +271,7 @@ func TestC10(t *testing.T) {
 		"to/cc/bto/bcc for Object, Activity and Block activities (blocked = alice); random: all five addressing properties (+actor), lists up to 8 over 5 addressees incl. the public collection " +
 		"in IRI / embedded actor / embedded object / scheme-case-trailing-slash variant presentations and nil entries, all 13 types with Recipients(). Oracle: reference first-mention scan " +
 		"(to, cc, bto, bcc, [actor], audience) under the IRI normaliser ignoring scheme; returned list and the four lists after the call are compared; Block clause. " +
-		"near: the same pair enumeration over {alice, alice?page=1, an object alice?page=1&page=2}: three different addressees whose ids differ only in the query, and two addressees named by acct: URIs. " +
+		"near: the same pair enumeration over {alice, alice?page=1, an object alice?page=1&page=2}: three different addressees whose ids differ only in the query, two addressees named by acct: URIs, a collection object as an addressee and an embedded actor without an id (not an addressee; it stays in its list and ends nothing). " +
 		"non-trivial = at least one addressee mentioned twice; distinct by the assignment")
 
 	alpha := []c10Entry{{0, "iri"}, {1, "iri"}, {0, "actor"}, {-1, "nil"}}
@@ -279,7 +289,7 @@ func TestC10(t *testing.T) {
 	}
 	build(nil)
 	// second alphabet: alice, and two other addressees whose ids differ from hers only in the query
-	alpha = []c10Entry{{0, "iri"}, {0, "near"}, {0, "near-object"}, {0, "opaque"}, {1, "opaque"}, {1, "collection"}}
+	alpha = []c10Entry{{0, "iri"}, {0, "near"}, {0, "near-object"}, {0, "opaque"}, {1, "opaque"}, {1, "collection"}, {2, "idless"}}
 	first := len(lists)
 	maxLen = r.Pick(2, 3)
 	build(nil)
@@ -351,7 +361,7 @@ func TestC10(t *testing.T) {
 		r.Exhaustive("pairs", !r.Replaying())
 	}
 
-	forms := []string{"iri", "iri", "actor", "object", "variant", "near", "near-object", "opaque", "collection"}
+	forms := []string{"iri", "iri", "actor", "object", "variant", "near", "near-object", "opaque", "collection", "idless"}
 	r.Rapid(t, "random", r.Pick(4000, 30000), func(t *rapid.T) {
 		gt := rapid.SampledFrom(c10Types).Draw(t, "gotype")
 		c := c10Case{GoType: gt, VType: string(rapid.SampledFrom(vocab.NamesFor(gt)).Draw(t, "vtype")), Lists: map[string][]c10Entry{}}
